@@ -431,6 +431,19 @@ func (e *t8Eval) lin(v ssa.Value, env t8Env, d int) t8Lin {
 	switch x := v.(type) {
 	case *ssa.Const, *ssa.Parameter:
 		return t8Lin{}
+	case *ssa.Phi:
+		// an accumulator summing the elements of a locally built list: init + Σ elements
+		if init, elems, ok := t8SumLoop(x); ok {
+			res := e.lin(init, env, d+1)
+			for _, el := range elems {
+				l := e.lin(el, env, d+1)
+				res.coef += l.coef
+				if l.st > res.st {
+					res.st, res.why = l.st, l.why
+				}
+			}
+			return res
+		}
 	case *ssa.BinOp:
 		a, b := e.lin(x.X, env, d+1), e.lin(x.Y, env, d+1)
 		st, why := a.st, a.why
@@ -507,6 +520,16 @@ func (e *t8Eval) depends(v ssa.Value, env t8Env, d int) bool {
 	if _, isPhi := v.(*ssa.Phi); isPhi && d > 4 {
 		return false
 	}
+	// a value read from local memory depends on the round if anything stored into that memory does
+	if ld, isLd := v.(*ssa.UnOp); isLd && ld.Op == token.MUL {
+		if al := t8BaseAlloc(ld.X); al != nil {
+			for _, sv := range t8StoredInto(al) {
+				if e.depends(sv, env, d+1) {
+					return true
+				}
+			}
+		}
+	}
 	for _, op := range an.Operands(in) {
 		if e.depends(op, env, d+1) {
 			return true
@@ -530,6 +553,189 @@ func usesValue(v, target ssa.Value, d int) bool {
 		if usesValue(op, target, d+1) {
 			return true
 		}
+	}
+	return false
+}
+
+// t8BaseAlloc: the local allocation an address lies in (through element / field addressing and slicing).
+func t8BaseAlloc(v ssa.Value) *ssa.Alloc {
+	for i := 0; i < 8; i++ {
+		switch x := v.(type) {
+		case *ssa.Alloc:
+			return x
+		case *ssa.IndexAddr:
+			v = x.X
+		case *ssa.FieldAddr:
+			v = x.X
+		case *ssa.Slice:
+			v = x.X
+		default:
+			return nil
+		}
+	}
+	return nil
+}
+
+// t8StoredInto: every value stored into the allocation or into an element / field / slice of it.
+func t8StoredInto(al *ssa.Alloc) []ssa.Value {
+	var out []ssa.Value
+	seen := map[ssa.Value]bool{}
+	var walk func(v ssa.Value)
+	walk = func(v ssa.Value) {
+		if seen[v] || v.Referrers() == nil {
+			return
+		}
+		seen[v] = true
+		for _, ref := range *v.Referrers() {
+			switch x := ref.(type) {
+			case *ssa.Store:
+				if x.Addr == v {
+					out = append(out, x.Val)
+				}
+			case *ssa.IndexAddr:
+				if x.X == v {
+					walk(x)
+				}
+			case *ssa.FieldAddr:
+				if x.X == v {
+					walk(x)
+				}
+			case *ssa.Slice:
+				if x.X == v {
+					walk(x)
+				}
+			}
+		}
+	}
+	walk(al)
+	return out
+}
+
+// t8SumLoop recognises `acc := init; for _, t := range list { acc += t }` (or the index-loop spelling) where list is
+// an array / slice literal built in the same function, every element of which is stored exactly once at a constant
+// index: the accumulator after the loop is init + the sum of the stored elements.
+func t8SumLoop(p *ssa.Phi) (init ssa.Value, elems []ssa.Value, ok bool) {
+	fn := p.Parent()
+	l := an.InnermostLoop(fn, p.Block())
+	if l == nil || l.Header != p.Block() || len(p.Edges) != 2 || len(l.Body) != 2 || an.LoopEarlyExit(l) != nil {
+		return nil, nil, false
+	}
+	var step ssa.Value
+	for i, pred := range p.Block().Preds {
+		if l.Body[pred] {
+			step = p.Edges[i]
+		} else {
+			init = p.Edges[i]
+		}
+	}
+	add, isAdd := step.(*ssa.BinOp)
+	if init == nil || !isAdd || add.Op != token.ADD {
+		return nil, nil, false
+	}
+	var term ssa.Value
+	switch {
+	case add.X == ssa.Value(p):
+		term = add.Y
+	case add.Y == ssa.Value(p):
+		term = add.X
+	default:
+		return nil, nil, false
+	}
+	ld, isLd := an.Unwrap(term).(*ssa.UnOp)
+	if !isLd || ld.Op != token.MUL {
+		return nil, nil, false
+	}
+	ia, isIA := ld.X.(*ssa.IndexAddr)
+	if !isIA || !l.Body[ia.Block()] || !t8CountsFromZero(l, ia.Index) {
+		return nil, nil, false
+	}
+	coll := l.RangeColl()
+	if coll == nil || !an.Equiv(coll, ia.X) {
+		return nil, nil, false
+	}
+	al := t8BaseAlloc(ia.X)
+	if al == nil {
+		return nil, nil, false
+	}
+	if sl, isSl := ia.X.(*ssa.Slice); isSl && (sl.Low != nil || sl.High != nil || sl.Max != nil) {
+		return nil, nil, false
+	}
+	arr, isArr := al.Type().Underlying().(*types.Pointer).Elem().Underlying().(*types.Array)
+	if !isArr {
+		return nil, nil, false
+	}
+	at := map[int64]ssa.Value{}
+	for _, ref := range *al.Referrers() {
+		switch x := ref.(type) {
+		case *ssa.IndexAddr:
+			if x == ia {
+				continue
+			}
+			k, isK := an.ConstInt(x.Index)
+			if !isK || x.Referrers() == nil {
+				return nil, nil, false
+			}
+			for _, r2 := range *x.Referrers() {
+				st, isSt := r2.(*ssa.Store)
+				if !isSt || st.Addr != ssa.Value(x) || l.Body[st.Block()] {
+					return nil, nil, false
+				}
+				if _, dup := at[k]; dup {
+					return nil, nil, false
+				}
+				at[k] = st.Val
+			}
+		case *ssa.Slice, *ssa.DebugRef:
+		default:
+			return nil, nil, false
+		}
+	}
+	for k := int64(0); k < arr.Len(); k++ {
+		v, has := at[k]
+		if !has {
+			return nil, nil, false // an element left at zero contributes nothing, but then the literal is not what it seems
+		}
+		elems = append(elems, v)
+	}
+	return init, elems, true
+}
+
+// t8CountsFromZero: idx is the loop's induction variable running 0, 1, 2, … (phi from 0 stepping by one, or go/ssa's
+// range form phi from -1 with idx = phi+1).
+func t8CountsFromZero(l *an.Loop, idx ssa.Value) bool {
+	phiOK := func(p *ssa.Phi, start int64, next ssa.Value) bool {
+		if p.Block() != l.Header || len(p.Edges) != 2 {
+			return false
+		}
+		for i, pred := range p.Block().Preds {
+			if l.Body[pred] {
+				if next != nil && p.Edges[i] != next {
+					return false
+				}
+				if next == nil {
+					b, ok := p.Edges[i].(*ssa.BinOp)
+					if !ok || b.Op != token.ADD || b.X != ssa.Value(p) {
+						return false
+					}
+					if k, isK := an.ConstInt(b.Y); !isK || k != 1 {
+						return false
+					}
+				}
+			} else if k, isK := an.ConstInt(p.Edges[i]); !isK || k != start {
+				return false
+			}
+		}
+		return true
+	}
+	switch x := an.Unwrap(idx).(type) {
+	case *ssa.Phi:
+		return phiOK(x, 0, nil)
+	case *ssa.BinOp:
+		p, isP := x.X.(*ssa.Phi)
+		if k, isK := an.ConstInt(x.Y); !isP || x.Op != token.ADD || !isK || k != 1 {
+			return false
+		}
+		return phiOK(p, -1, x)
 	}
 	return false
 }
